@@ -27,7 +27,7 @@ def scratch(patch):
 def run(sid):
     sd = os.path.join(V, "seeded", sid)
     meta = json.load(open(sd + "/meta.json"))
-    d, base = scratch(sd + "/patch.diff")
+    d, base = scratch(sd + ("/patch.head.diff" if os.path.exists(sd + "/patch.head.diff") else "/patch.diff"))
     try:
         meta["applied_to"] = base if base != "HEAD" else subprocess.run("git -C /repo log --format=%h -1", shell=True, capture_output=True, text=True).stdout.strip()
         props = [meta["breaks_property"]] if only_target else ALL
@@ -42,7 +42,8 @@ def run(sid):
                                     "violations": [v[:300] for v in vio[:2]],
                                     "summary": next((l for l in reversed(lines) if l.startswith("property=")), "")}
             json.dump(meta, open(sd + "/meta.json", "w"), indent=1)
-        meta["detected_by"] = sorted(p for p, r in meta["checks"].items() if r["exit"] == 1)
+        if not only_target:
+            meta["detected_by"] = sorted(p for p, r in meta["checks"].items() if r["exit"] == 1)
         json.dump(meta, open(sd + "/meta.json", "w"), indent=1)
         print(sid, "detected_by", meta["detected_by"], flush=True)
     finally:
